@@ -30,13 +30,46 @@ LAZY_FIELDS = {"_camera": "default camera created on first access", "_lights": "
 
 
 def _scene_hash_cover(ix):
+    """what reaches the value returned by Scene.__hash__ (through local assignments, accumulator calls, comprehensions or loops)"""
+    from ..accum import canon_elt, canon_iter, contributions, return_sources
+    from ..provenance import Prov
+
     h = ix.func("trimesh.scene.scene:Scene.__hash__")
-    txt = ast.unparse(h.node)
+    srcs, reach = return_sources(h.node)
+    inside = {id(x) for e in srcs for x in ast.walk(e)}
+    texts = {ast.unparse(x) for e in srcs for x in ast.walk(e) if isinstance(x, (ast.Call, ast.Attribute))}
+    pv = Prov(ix, h)
+
+    def canon(e):
+        st = pv.stmt_of(e)
+        return pv.canon(e, st) if st is not None else ast.unparse(e)
+
+    geo = False
+    for c in contributions(h.node):
+        if not (id(c.node) in inside if c.acc is None else c.acc.split(".")[0] in reach) or c.filters:
+            continue
+        it = canon_iter(pv, c, h.node)
+        elt = canon_elt(pv, c)
+        H = lambda x: (f"hex({x}.__hash__())", f"{x}.__hash__()", f"hex(hash({x}))", f"hash({x})")  # noqa
+        # per definition: hash of self.geometry[k] for every key, or of every value
+        if it in ("P_self.geometry.keys()", "P_self.geometry") and elt in H("P_self.geometry[_1]"):
+            geo = True
+        if it == "P_self.geometry.values()" and elt in H("_1"):
+            geo = True
+        if it == "P_self.geometry.items()" and elt in H("_2"):
+            geo = True
     return {
-        "forest": "self.graph.transforms.__hash__()" in txt,
-        "geometry": "for k in geometry.keys()" in txt and "geometry[k].__hash__()" in txt,
-        "base_frame": "self.graph.base_frame" in txt,
+        "forest": bool({"self.graph.transforms.__hash__()", "hash(self.graph.transforms)"} & texts),
+        "geometry": geo,
+        "base_frame": "self.graph.base_frame" in texts,
     }, h
+
+
+def _enclosing_for(fnode, st):
+    for n in ast.walk(fnode):
+        if isinstance(n, ast.For) and any(x is st for x in ast.walk(n)):
+            best = n
+    return best
 
 
 def _planar_shortcut(run, ix):
@@ -259,13 +292,10 @@ def check(run):
     cm = producers.get("center_mass")
     if cm is None:
         raise AnalysisError("anchor vanished: Scene.center_mass")
-    comps = [n for n in ast.walk(cm.node) if isinstance(n, ast.ListComp)]
-    inst = [c for c in comps if any(ast.unparse(g.iter) == "instance" for g in c.generators)]
-    filters = []
-    for c in inst:
-        for g in c.generators:
-            if ast.unparse(g.iter) == "instance":
-                filters.append(sorted(ast.unparse(i) for i in g.ifs))
+    # (comprehension or accumulating loop: sa/accum.py describes both the same way)
+    from ..accum import contributions
+    inst = [c for c in contributions(cm.node) if c.iter == "instance"]
+    filters = [sorted(t if pol else f"not ({t})" for t, pol in c.filters) for c in inst]
     # the instance list itself may carry the filter
     inst_def = [st for st in ast.walk(cm.node) if isinstance(st, ast.Assign) and ast.unparse(st.targets[0]) == "instance"]
     base_filter = []
